@@ -37,7 +37,7 @@ type Op struct {
 	// CancelOnReturn: the thread cancels the call's context as soon as the stub has returned
 	// (the `defer cancel()` of a caller that gives every call a context of its own)
 	CancelOnReturn bool `json:"cancel_on_return,omitempty"`
-	Us    int  `json:"us,omitempty"` // sleep
+	Us             int  `json:"us,omitempty"` // sleep
 }
 
 // Case is a generated program.
